@@ -25,7 +25,7 @@ for w in what:
         res = verify.run_task(table, SPECS, c, k)
         print('==', w, '[', k, ']', f"{res.get('seconds', 0):.2f}s", res['meta'])
         if res['error']:
-            print('ERROR', res['error'])
+            print('ERROR', res['error'].split('\n')[0], '...', res['error'][-400:])
         if res['undecided']:
             print('UNDECIDED', res['undecided'])
         for r in res['results']:
